@@ -218,6 +218,12 @@ pub struct C10Plan {
     /// connection ends and is looked at during the wind-down)
     #[serde(default)]
     pub connect_behind_garbage: bool,
+    /// once the fault sequence is over and everything has gone quiet, the endpoint's application
+    /// lets go of every stream object it holds (unread frames and all). For a flow that the
+    /// sequence has already ended (the peer reset it) that must not put anything on the wire:
+    /// never a Reset in reply to a Reset, however late
+    #[serde(default)]
+    pub drop_held: bool,
 }
 
 const ID_BYS: u32 = 0xb0;
@@ -407,6 +413,7 @@ async fn run_c10_async(plan: C10Plan, sched: Sched, record: bool) -> Outcome {
     let garbage_at: Rc<RefCell<Option<u64>>> = Default::default();
     {
         let (raw, peer, plan2, model, er, sf, fd, pk, ga, seq, pr) = (s.raw.clone(), s.peer.clone(), plan.clone(), model.clone(), expect_resets.clone(), sent_frames.clone(), fault_done.clone(), probe_ok.clone(), garbage_at.clone(), s.seq.clone(), probes.clone());
+        let held_d = held.clone();
         let ep_rwnd = plan.ep.rwnd;
         let binds_on = plan.ep.bind_buf > 0;
         let lk_sil = s.link.clone();
@@ -566,6 +573,28 @@ async fn run_c10_async(plan: C10Plan, sched: Sched, record: bool) -> Outcome {
             }
             tokio::time::sleep(Duration::from_secs(10_000)).await;
             *pk.borrow_mut() = Some(peer.borrow().acked.contains_key(&ID_PROBE));
+            if plan2.drop_held {
+                // flows still established by the reference model are aborted by this (a Reset is in
+                // order, or a Finish has been sent: left open); flows the sequence has ended owe nothing
+                let mut ended = 0u64;
+                for (_, st) in model.borrow_mut().iter_mut() {
+                    match st {
+                        St::Est { .. } => *st = St::Tainted,
+                        St::Unknown => ended += 1,
+                        _ => {}
+                    }
+                }
+                let n = held_d.borrow().len() as u64;
+                // objects of flows the reference model does not follow (the liveness probe, the
+                // streams of a connect burst) are live streams too: letting go of them is an abort
+                // (they are not judged below: see `plan.drop_held` in the Reset discipline)
+                held_d.borrow_mut().clear();
+                *pr.borrow_mut().entry("held-stream-objects-dropped-after-the-sequence".into()).or_insert(0) += n;
+                if ended > 0 && n > 0 {
+                    *pr.borrow_mut().entry("stale-stream-object-dropped-after-its-flow-was-ended".into()).or_insert(0) += 1;
+                }
+                tokio::time::sleep(Duration::from_secs(10_000)).await;
+            }
             // --- optionally: a message that is not a valid frame ends the connection
             if let Some(k) = plan2.garbage {
                 *ga.borrow_mut() = Some(seq.now());
@@ -645,6 +674,10 @@ async fn run_c10_async(plan: C10Plan, sched: Sched, record: bool) -> Outcome {
         for id in ids {
             if m.get(&id) == Some(&St::Tainted) {
                 o.probe("undetermined-reaction-recorded", 1);
+                continue;
+            }
+            if plan.drop_held && !m.contains_key(&id) {
+                // a live stream outside the model (liveness probe, connect burst) was let go: an abort
                 continue;
             }
             let (e, g) = (exp.get(&id).copied().unwrap_or(0), p.resets.get(&id).copied().unwrap_or(0));
